@@ -51,3 +51,41 @@ Proof.
   rewrite (nth_indep _ 0 ((fun j => nth j (d_vals d) 0 + (if existsb (Nat.eqb j) (d_bumps d) then 1 else 0)) 0%nat)) by (rewrite map_length, seq_length; lia).
   rewrite (map_nth (fun j => nth j (d_vals d) 0 + (if existsb (Nat.eqb j) (d_bumps d) then 1 else 0))), seq_nth by lia. reflexivity.
 Qed.
+
+(* ---- histories: n calls publish the forward-pass updates n times, whatever mixture of direct and differentiated calls ---- *)
+Lemma firstn_nth_Z (l : list Z) n k : (k < n)%nat -> (n <= length l)%nat -> nth k (firstn n l) 0 = nth k l 0.
+Proof.
+  revert n k. induction l as [|a l IH]; intros n k H1 H2.
+  - simpl in H2. lia.
+  - destruct n as [|n]; [lia|]. destruct k as [|k]; simpl; [reflexivity|]. apply IH; simpl in H2; lia.
+Qed.
+
+Lemma vars_after_length d : (nvars d <= length (d_vals d))%nat -> length (vars_after d) = nvars d.
+Proof. intros H. unfold vars_after, fwd_vals. rewrite firstn_length, map_length, seq_length. lia. Qed.
+
+Lemma next_d_length d : (nvars d <= length (d_vals d))%nat -> length (d_vals (next_d d)) = length (d_vals d).
+Proof. intros H. unfold next_d. cbn [d_vals]. rewrite app_length, vars_after_length, skipn_length by exact H. lia. Qed.
+
+Lemma next_d_nth d i : (i < nvars d)%nat -> (nvars d <= length (d_vals d))%nat ->
+  nth i (d_vals (next_d d)) 0 = nth i (d_vals d) 0 + (if existsb (Nat.eqb i) (d_bumps d) then 1 else 0).
+Proof.
+  intros Hi Hl. unfold next_d. cbn [d_vals]. rewrite app_nth1 by (rewrite vars_after_length by exact Hl; exact Hi).
+  apply forward_effects_once; assumption.
+Qed.
+
+Theorem effects_once_per_call n : forall d i, (i < nvars d)%nat -> (nvars d <= length (d_vals d))%nat ->
+  nth i (snd (hist n d)) 0 = nth i (d_vals d) 0 + (if existsb (Nat.eqb i) (d_bumps d) then Z.of_nat n else 0).
+Proof.
+  induction n as [|n IH]; intros d i Hi Hl.
+  - cbn [hist snd]. rewrite firstn_nth_Z by assumption. destruct (existsb _ _); lia.
+  - cbn [hist]. destruct (hist n (next_d d)) as [ys vs] eqn:E. cbn [snd].
+    assert (H := IH (next_d d) i). rewrite E in H. cbn [snd] in H.
+    assert (Hn : nvars (next_d d) = nvars d) by reflexivity.
+    rewrite H by (rewrite ?Hn, ?next_d_length by exact Hl; assumption).
+    rewrite next_d_nth by assumption. change (d_bumps (next_d d)) with (d_bumps d).
+    destruct (existsb _ _); lia.
+Qed.
+
+(* the inputs and the number of outputs are unaffected *)
+Theorem hist_outputs n : forall d, length (fst (hist n d)) = n.
+Proof. induction n as [|n IH]; intros d; cbn [hist]; [reflexivity|]. specialize (IH (next_d d)). destruct (hist n (next_d d)). cbn [fst] in *. simpl. lia. Qed.
